@@ -52,6 +52,12 @@ def gen(rng, tier):
         for variant in ("exact_stream_window", "exact_conn_window", "empty_sibling_conn0", "empty_sibling_stream0_self"):
             n += 1
             yield _build_endzero(rng, 900000 + n, variant)
+    # ---- WebSocket over HTTP/2: control frames arriving while the stream's send buffer is full must not stop the reader, or the very
+    # WINDOW_UPDATE that would drain the buffer is never read
+    for rep in range(2 if tier == "quick" else 12):
+        for what in ("ping", "pings", "text"):
+            n += 1
+            yield _build_wsping(rng, 960000 + n, what)
     # ---- WSGI applications stream through the same back-pressure: the iterable is consumed only as fast as the client accepts data ----
     for rep in range(1 if tier == "quick" else 6):
         for proto in ("h1", "h2"):
@@ -64,6 +70,27 @@ def gen(rng, tier):
     for (kind, size, chunk, point, release, sib) in cases:
         n += 1
         yield _build(rng, n, kind, size, chunk, point, release, sib)
+
+
+def _build_wsping(rng, n, what):
+    from ..wire import ws as _ws
+
+    fb = FrameBuilder()
+    rspec = {"kind": "h2", "credit": "none"}
+    nmsg, size = rng.choice([(8, 60000), (40, 16000), (4, 200000)])
+    app = [["recv"], ["send", {"type": "websocket.accept"}]] + [["send", {"type": "websocket.send", "bytes": b"x" * size}] for _ in range(nmsg)] + \
+          [["recv_until_disconnect"]]
+    hd = [(b":method", b"CONNECT"), (b":protocol", b"websocket"), (b":scheme", b"http"), (b":path", b"/t%d" % n), (b":authority", b"h"),
+          (b"sec-websocket-version", b"13")]
+    during = {"ping": _ws.frame(_ws.OP_PING, b"are-you-there"), "pings": b"".join(_ws.frame(_ws.OP_PING, b"p%d" % k) for k in range(50)),
+              "text": _ws.message_frames(_ws.OP_TEXT, b"hello")}[what]
+    total = nmsg * (size + 14) + 10000
+    client = [["feed", client_preface(fb, rspec) + fb.headers(1, hd, end_stream=False)], ["settle"], ["feed", fb.data(1, during)], ["settle"],
+              ["mark", "stall"], ["react", "window_update", 1, total], ["react", "window_update", 0, total], ["settle"]]
+    return {"family": "wsh2.%s-under-backpressure" % what, "backends": ["asyncio", "trio"], "config": {"keep_alive_timeout": 5000}, "conn": {},
+            "apps": {"default": app, "websocket": app}, "client": client, "reactor": rspec,
+            "truth": {"kind": "wsh2", "what": what, "size": nmsg * size, "chunk": size, "tag": n, "sib": [], "nmsg": nmsg, "release": "credit"},
+            "sched": {"seed": rng.randrange(1 << 30)}, "horizon": 100.0}
 
 
 def _build_wsgi(rng, n, proto, be):
@@ -274,6 +301,22 @@ def check(case, obs, tally):
         if stuck and not out:
             out.append({"clause": "end-needs-no-credit", "sig": "C08.not-released/h2/end-without-credit",
                         "detail": "send(%r) of %s still waiting although nothing of it needs credit" % (stuck[0][4]["msg"].get("type"), paths.get(stuck[0][4]["inst"]))})
+        return out
+    if t["kind"] == "wsh2":
+        from ..wire import ws as _ws
+
+        tally.clause("released")
+        tally.clause("ws-control-under-backpressure")
+        s_ = obs.reactor.streams.get(1)
+        p_ = _ws.FrameParser(False, False)
+        if s_ is not None and s_.status == 200:
+            p_.feed(bytes(s_.data))
+        got = sum(len(v) for k, v in p_.messages if k == "bytes")
+        stuck = obs.open_sends()
+        if got != t["size"] or stuck:
+            out.append({"clause": "released", "sig": "C08.not-released/wsh2/%s-while-buffer-full" % t["what"],
+                        "detail": "WebSocket over HTTP/2, send buffer full (no credit), the client sends %s and then grants all the credit: %d of %d "
+                                  "message bytes arrived, %d application send(s) still waiting" % (t["what"], got, t["size"], len(stuck))})
         return out
     if t["kind"].startswith("wsgi."):
         mk = obs.marks["stall"]
